@@ -101,6 +101,8 @@ class Attr:
                 return SymType(g.o, g.T[n]).pin()  # fall-back mode: a plain str (the type is decided as soon as it is read)
             return SymType(g.o, g.T[n])
         if k == "output":
+            if g.OM is not None and g.o.decide(g.OM[n]):
+                raise KeyError(k)  # node without an `output` attribute (Circuit.is_output treats it as False)
             return g.o.decide(g.O[n])
         raise KeyError(k)
 
@@ -171,6 +173,7 @@ class SymDiGraph:
         self.created = []  # names outside U that were added, in order
         self.graph = {}
         self.pin_types = False
+        self.OM = None  # optional: name -> Bool "the node has no `output` attribute"
 
     # ---------------------------------------------------------------- symbolic state accessors (z3 terms)
     def names(self):
@@ -208,6 +211,8 @@ class SymDiGraph:
             return z3.BoolVal(bool(w))
         if n in self.fresh or n not in self.O:
             return z3.BoolVal(False)
+        if self.OM is not None:
+            return z3.And(self.O[n], z3.Not(self.OM[n]))
         return self.O[n]
 
     # ------------------------------------------------------------------------------- DiGraph API
@@ -339,6 +344,7 @@ class SymDiGraph:
         g.wnode, g.fresh, g.wattr, g.wedge = dict(self.wnode), set(self.fresh), dict(self.wattr), dict(self.wedge)
         g.created = list(self.created)
         g.pin_types = self.pin_types
+        g.OM = self.OM
         return g
 
 
@@ -380,6 +386,18 @@ class NxProxy:
 
     def __getattr__(self, name):
         return getattr(real_nx, name)
+
+    def get_node_attributes(self, g, name, default=None):
+        if not getattr(g, "is_symbolic", False):
+            return real_nx.get_node_attributes(g, name) if default is None else real_nx.get_node_attributes(g, name, default)
+        out = {}
+        for n in g:
+            a = Attr(g, n)
+            if name in a:
+                out[n] = a[name]
+            elif default is not None:
+                out[n] = default
+        return out
 
     def ancestors(self, g, n):
         if not getattr(g, "is_symbolic", False):
@@ -475,7 +493,7 @@ def mval(m, t):
     return m.eval(t, model_completion=True)
 
 
-def materialize(vars_, model, bbs=None, name="sym"):
+def materialize(vars_, model, bbs=None, name="sym", OM=None):
     """real networkx-backed Circuit for a pre-state model"""
     import circuitgraph as cg
 
@@ -489,7 +507,8 @@ def materialize(vars_, model, bbs=None, name="sym"):
                 attrs["type"] = TYPES[ti]
             elif ti == UNSUPPORTED:
                 attrs["type"] = BOGUS
-            attrs["output"] = z3.is_true(mval(model, O[n]))
+            if OM is None or not z3.is_true(mval(model, OM[n])):
+                attrs["output"] = z3.is_true(mval(model, O[n]))
             g.add_node(n, **attrs)
     for (u, v), e in E.items():
         if z3.is_true(mval(model, e)) and u in g and v in g:
